@@ -80,6 +80,26 @@ func (fc *FnCtx) envAtLoop(li *loopInfo, st *State, over map[*ssa.Phi]Val) *Env 
 				return fc.val(phi), true
 			}
 		}
+		// a source variable that is a header phi under another name (`for i := range n`:
+		// the phi is rangeint.iter, i is a debug reference to it)
+		for _, in := range li.header.Instrs {
+			d, ok := in.(*ssa.DebugRef)
+			if !ok {
+				continue
+			}
+			id, isId := d.Expr.(*ast.Ident)
+			phi, isPhi := d.X.(*ssa.Phi)
+			if !isId || !isPhi || id.Name != name || phi.Block() != li.header || d.IsAddr {
+				continue
+			}
+			fc.lastRole = fmt.Sprintf("phi:loop%d", li.index)
+			if over != nil {
+				if v, ok := over[phi]; ok {
+					return v, true
+				}
+			}
+			return fc.val(phi), true
+		}
 		return fc.lookupVar(name, li.header, st)
 	}
 	return env
@@ -620,6 +640,38 @@ func (fc *FnCtx) evalCall(x *ast.CallExpr, env *Env) Val {
 		n.depth = env.depth + 1
 		in := fc.mapDom(env.state(), m, mt, bv)
 		return boolV(fmt.Sprintf("(forall ((%s %s)) (! %s :pattern (%s)))", bv, ks, implies(and(in, guard), fc.evalBool(x.Args[2], n)), fc.mapDomSel(env.state(), m, mt, bv)))
+	case "updrow":
+		// updrow(g, i, c): ghost array g (two levels) with row i reset to the constant c everywhere
+		id, ok := x.Args[0].(*ast.Ident)
+		if !ok {
+			panic(specErr("updrow: first argument must name a ghost variable"))
+		}
+		sort := fc.eng.ghostSort(id.Name)
+		if !strings.HasPrefix(sort, "(Array Int (Array ") {
+			panic(specErr("updrow: " + id.Name + " is not a two-level ghost array"))
+		}
+		row := strings.TrimSuffix(strings.TrimPrefix(sort, "(Array Int "), ")")
+		a := arg(0)
+		return Val{K: a.K, S: app("store", a.S, fc.idxTerm(arg(1)), "((as const "+row+") "+arg(2).S+")")}
+	case "pureBool", "pureStr", "pureInt":
+		// pureBool("(time.Time).After", a, b): the boolean result of a `pure` extern function on
+		// these arguments (the same uninterpreted application a call in the code produces)
+		lit, ok := x.Args[0].(*ast.BasicLit)
+		if !ok {
+			panic(specErr("pureBool: first argument must be a string literal"))
+		}
+		name, _ := strconv.Unquote(lit.Value)
+		ci := calleeInfo{name: name}
+		for i := 1; i < len(x.Args); i++ {
+			ci.args = append(ci.args, arg(i))
+		}
+		switch fn.Name {
+		case "pureStr":
+			return fc.pureResult(ci, types.Typ[types.String])
+		case "pureInt":
+			return fc.pureResult(ci, types.Typ[types.Int])
+		}
+		return fc.pureResult(ci, types.Typ[types.Bool])
 	case "visited":
 		// visited(m, k): inside a `for k, v := range m` loop, key k has already been yielded
 		m := arg(0)
